@@ -84,6 +84,20 @@ def emptyResp (id : Bytes) : Resp := { id := id, values := [], nodes4 := [], nod
 def errInvalidToken : Bytes := "received an invalid token".toUTF8.toList.map (·.toNat)
 def errStorageFull : Bytes := "announce storage is full".toUTF8.toList.map (·.toNat)
 
+/-- `Token::new` needs exactly 20 bytes; only then is the token store consulted (`checkin` for the
+source IP, which may rotate the secrets) -/
+def HState.checkToken (s : HState) (token : Bytes) (src : Addr) (now : Nat) : HState × Bool :=
+  if token.length = Constants.INFO_HASH_LEN then
+    let r := s.tokens.checkin src.ip (tokDec? token) now
+    ({ s with tokens := r.1 }, r.2)
+  else (s, false)
+
+/-- the contact stored by an announce: the source address, with the announced port unless implied -/
+def connectAddr (port : Option Nat) (src : Addr) : Addr :=
+  match port with
+  | none => src
+  | some p => { src with port := p }
+
 /-- the `Request` arms of `handle_incoming` -/
 def HState.handleRequest (s : HState) (tid : InTid) (r : Req) (src : Addr) (now : Nat) : HState × List HEffect :=
   if s.readOnly then (s, []) else
@@ -107,23 +121,13 @@ def HState.handleRequest (s : HState) (tid : InTid) (r : Req) (src : Addr) (now 
     let s := { s with tokens := tokens }
     (s, [.send src tid (.resp { id := s.selfId, values := values, nodes4 := n4, nodes6 := n6, token := some (tokEnc tok) }) ok])
   | .announce id ih port token =>
-    let s := s.markRemote id src now
-    -- `Token::new` needs exactly 20 bytes; only then is the token store consulted
-    let (s, valid) :=
-      if token.length = Constants.INFO_HASH_LEN then
-        let (tokens, v) := s.tokens.checkin src.ip (tokDec? token) now
-        ({ s with tokens := tokens }, v)
-      else (s, false)
-    let connectAddr : Addr := match port with
-      | none => src
-      | some p => { src with port := p }
-    if !valid then
-      (s, [.send src tid (.err Constants.PROTOCOL_ERROR errInvalidToken) ok])
+    let c := (s.markRemote id src now).checkToken token src now
+    if !c.2 then
+      (c.1, [.send src tid (.err Constants.PROTOCOL_ERROR errInvalidToken) ok])
     else
-      let (store, added) := s.store.add ⟨ih, connectAddr⟩ now
-      let s := { s with store := store }
-      if added then (s, [.send src tid (.resp (emptyResp s.selfId)) ok])
-      else (s, [.send src tid (.err Constants.SERVER_ERROR errStorageFull) ok])
+      let a := c.1.store.add ⟨ih, connectAddr port src⟩ now
+      if a.2 then ({ c.1 with store := a.1 }, [.send src tid (.resp (emptyResp s.selfId)) ok])
+      else ({ c.1 with store := a.1 }, [.send src tid (.err Constants.SERVER_ERROR errStorageFull) ok])
 
 /-- `handle_lookup_completed`: remove the lookup and let it announce / close its stream -/
 def HState.completeLookup (s : HState) (aid : Nat) (now : Nat) : HState × List HEffect :=
@@ -134,32 +138,41 @@ def HState.completeLookup (s : HState) (aid : Nat) (now : Nat) : HState × List 
     let (_, env, effs) := l.recvFinished (s.env now) s.announcePort
     (s.withEnv env, liftEffects effs)
 
+/-- what a transaction id routes to: `(action id, the drawn id if it is one)`; `none` for bytes
+that are no id of this node (wrong length, or a prefix this node never used) -/
+def InTid.route : InTid → Option (Nat × Option Tid)
+  | .raw _ => none
+  | .sym t => some (t.aid, some t)
+  | .fresh aid => some (aid, none)
+
+/-- the nodes a response names for this node's address family -/
+def HState.namedBy (s : HState) (rsp : Resp) : List Handle := if s.v6 then rsp.nodes6 else rsp.nodes4
+
+/-- a response routed to the live lookup `l`: responder and named nodes are offered to the routing
+table, then the lookup handles the response (an id of the lookup's prefix that was never drawn
+matches no outstanding query) -/
+def HState.lookupResponse (s : HState) (l : Lookup) (t? : Option Tid) (rsp : Resp) (src : Addr) (now : Nat) :
+    HState × List HEffect :=
+  let s1 := { s with table := s.table.addNodes (Node.asGood ⟨rsp.id, src⟩ now) (s.namedBy rsp) now }
+  let r : Lookup × LEnv × List Effect := match t? with
+    | some t => l.recvResponse (s1.env now) ⟨rsp.id, src⟩ t rsp
+    | none => (l, s1.env now, [])
+  let s2 := { (s1.withEnv r.2.1) with lookups := s1.lookups.map (fun x => if x.aid = l.aid then r.1 else x) }
+  if r.1.completedNow then
+    let c := s2.completeLookup l.aid now
+    (c.1, liftEffects r.2.2 ++ c.2)
+  else (s2, liftEffects r.2.2)
+
 /-- the `Response` arm of `handle_incoming` (`handle_incoming_response`) -/
 def HState.handleResponse (s : HState) (tid : InTid) (rsp : Resp) (src : Addr) (now : Nat) : HState × List HEffect :=
-  let aid? : Option (Nat × Option Tid) := match tid with
-    | .raw _ => none                       -- wrong length, or a prefix this node never used
-    | .sym t => some (t.aid, some t)
-    | .fresh aid => some (aid, none)
-  match aid? with
+  match tid.route with
   | none => (s, [])
   | some (aid, t?) =>
-    let responder := Node.asGood ⟨rsp.id, src⟩ now
-    let named := if s.v6 then rsp.nodes6 else rsp.nodes4
     match s.lookups.find? (·.aid = aid) with
-    | some l =>
-      let s := { s with table := s.table.addNodes responder named now }
-      -- an id of this lookup's prefix that was never drawn matches no outstanding query
-      let (l', env, effs) := match t? with
-        | some t => l.recvResponse (s.env now) ⟨rsp.id, src⟩ t rsp
-        | none => (l, s.env now, [])
-      let s := (s.withEnv env)
-      let s := { s with lookups := s.lookups.map (fun x => if x.aid = aid then l' else x) }
-      if l'.completedNow then
-        let (s, e2) := s.completeLookup aid now
-        (s, liftEffects effs ++ e2)
-      else (s, liftEffects effs)
+    | some l => s.lookupResponse l t? rsp src now
     | none =>
-      if aid = refreshAid then ({ s with table := s.table.addNodes responder named now }, [])
+      if aid = refreshAid then
+        ({ s with table := s.table.addNodes (Node.asGood ⟨rsp.id, src⟩ now) (s.namedBy rsp) now }, [])
       else (s, [])
 
 /-- `handle_incoming(message, addr)` -/
@@ -195,25 +208,31 @@ def HState.refresh (s : HState) (now : Nat) : HState × List HEffect :=
   let (timer, _) := s.timer.scheduleAt (now + Constants.REFRESH_INTERVAL_TIMEOUT_ns) .tableRefresh
   ({ s with timer := timer, refreshBucket := bucket + 1 }, effs)
 
+/-- `handle_check_lookup_timeout` for the live lookup `l` -/
+def HState.lookupTimeout (s : HState) (l : Lookup) (t : Tid) (now : Nat) : HState × List HEffect :=
+  let r := l.recvTimeout (s.env now) t
+  let s2 := { (s.withEnv r.2.1) with lookups := s.lookups.map (fun x => if x.aid = l.aid then r.1 else x) }
+  if r.1.completedNow then
+    let c := s2.completeLookup l.aid now
+    (c.1, liftEffects r.2.2 ++ c.2)
+  else (s2, liftEffects r.2.2)
+
+/-- `handle_timeout(task)` -/
+def HState.handleTask (s : HState) (task : Task) (now : Nat) : HState × List HEffect :=
+  match task with
+  | .tableRefresh => s.refresh now
+  | .lookupTimeout t =>
+    match s.lookups.find? (·.aid = t.aid) with
+    | none => (s, [])
+    | some l => s.lookupTimeout l t now
+  | .lookupEndGame t => s.completeLookup t.aid now
+
 /-- the timer branch of `run_once`: pop the earliest entry and dispatch it (`handle_timeout`) -/
 def HState.fireTimer (s : HState) (now : Nat) : HState × List HEffect × Option (TimerEntry Task) :=
   match s.timer.pop with
   | none => (s, [], none)
   | some (timer, e) =>
-    let s := { s with timer := timer }
-    match e.task with
-    | .tableRefresh => let (s, effs) := s.refresh now; (s, effs, some e)
-    | .lookupTimeout t =>
-      match s.lookups.find? (·.aid = t.aid) with
-      | none => (s, [], some e)
-      | some l =>
-        let (l', env, effs) := l.recvTimeout (s.env now) t
-        let s := s.withEnv env
-        let s := { s with lookups := s.lookups.map (fun x => if x.aid = t.aid then l' else x) }
-        if l'.completedNow then
-          let (s, e2) := s.completeLookup t.aid now
-          (s, liftEffects effs ++ e2, some e)
-        else (s, liftEffects effs, some e)
-    | .lookupEndGame t => let (s, effs) := s.completeLookup t.aid now; (s, effs, some e)
+    let r := { s with timer := timer }.handleTask e.task now
+    (r.1, r.2, some e)
 
 end Btdht
